@@ -18,7 +18,7 @@ ASSUMPTIONS = ["step budget as in C01", "value identity by the independent value
 
 
 def gen_cases(tier, seed):
-    cases = S.gen(tier, seed, "C14", 9000, 150000)
+    cases = S.gen(tier, seed, "C14", 7000, 150000)
     for c in cases:
         c["o"]["debug"] = False
     return cases
